@@ -71,7 +71,8 @@ pub fn for_each_space(ctx: &Ctx, f: &(dyn Fn(&RefPacket, &dyn Fn() -> Value, &mu
     ctx.space("16 KiB straddle: first occurrence of a shared name at every offset 16360..=16400 x 4 later-use variants", cases.len() as u64, "complete");
     ctx.sample(json!({"kind": "straddle", "first_at": 16384, "variant": 1}));
     // long names and deep chains
-    let longs = gen::long_name_packets();
+    let mut longs = gen::long_name_packets();
+    longs.extend(gen::many_and_sized_packets());
     let lidx: Vec<usize> = (0..longs.len()).collect();
     par_shards(ctx, &lidx, |i, t: &mut Tally| {
         f(&longs[*i], &|| json!({"kind": "long", "index": i}), t);
